@@ -9,7 +9,7 @@ from functools import partial
 from symx.run import Obligation
 from symx.core import SymNum, isna
 from oracles import bms as ref
-from .common import classes, col, cell_same, same_multiset, MapSnap
+from .common import classes, col, cell_same, same_multiset, same_steps, MapSnap
 from .c04 import layout, lane_channels, LAYOUTS
 
 LINE = re.compile(rb"^#\d{3}[0-9A-Z]{2}:([0-9A-Za-z~]{2})*$")
@@ -89,11 +89,8 @@ def check_written(ctx, label, m, out, lay, hits, holds, grid, tol=None):
             fil[-1] = (p, v)
         else:
             fil.append((p, v))
-    ctx.check(label + ".tempo.count", len(fil) == len(mem), note="file %r vs chart %r" % ([p for p, _v in fil], [p for p, _v in mem]))
-    if len(fil) == len(mem):
-        ctx.check(label + ".tempo.positions", all(a[0] == b[0] for a, b in zip(fil, mem)), note="%r vs %r" % ([p for p, _v in fil], [p for p, _v in mem]))
-        ctx.check(label + ".tempo.values-to-3-decimals", ctx.all(*[ctx.within(a[1], b[1], F(5001, 10**7), strict=False) for a, b in zip(fil, mem)]),
-                  note="%r vs %r" % ([ctx.value(v) for _p, v in fil], [ctx.value(v) for _p, v in mem]))
+    ctx.check(label + ".tempo.same-timeline-to-3-decimals", same_steps(ctx, fil, mem, F(5001, 10**7)),
+              note="file %r vs chart %r" % ([(p, ctx.value(v)) for p, v in fil], [(p, ctx.value(v)) for p, v in mem]))
     h = d["header"]
     ctx.check(label + ".header", (h.get(b"TITLE"), h.get(b"ARTIST"), h.get(b"PLAYLEVEL"), h.get(b"GENRE")) == (m.title, m.artist, m.version, b"gen re"),
               note="%r" % ((h.get(b"TITLE"), h.get(b"ARTIST"), h.get(b"PLAYLEVEL"), h.get(b"GENRE")),))
